@@ -431,6 +431,11 @@ fn api_text_side(run: &Run, subjects: &[u32]) -> Stats {
         .reduce(Stats::default, Stats::merge)
 }
 
+fn phase(name: &str) {
+    let rss = std::fs::read_to_string("/proc/self/status").ok().and_then(|s| s.lines().find(|l| l.starts_with("VmRSS")).map(|l| l.split_whitespace().nth(1).unwrap_or("?").to_string())).unwrap_or_default();
+    println!("  C10 phase: {} (rss {} KB)", name, rss);
+}
+
 pub fn c10(run: &mut Run) -> Stats {
     let thorough = run.thorough();
     let mut st = Stats::default();
@@ -449,14 +454,21 @@ pub fn c10(run: &mut Run) -> Stats {
     };
     let all: Vec<u32> = (0..=MAXCP).filter(|c| !is_surrogate(*c)).collect();
     // API, candidates x candidates, all kinds and modes
+    phase("hook level done");
     st = st.merge(api_level(run, &k, &k, &["literal", "class", "negclass"], &["i", "iu", "iv"], "K"));
+    phase("K x K done");
     st = st.merge(api_text_side(run, &k));
+    phase("text side K done");
     if thorough {
         // every scalar as the pattern character over the all-scalars haystack
         st = st.merge(api_level(run, &all, &all, &["literal"], &["i", "iu"], "all scalars"));
+        phase("all x all literal done");
         st = st.merge(api_level(run, &k, &all, &["class", "negclass"], &["i", "iu", "iv"], "all scalars"));
+        phase("K x all class done");
         st = st.merge(api_level(run, &all, &k, &["class"], &["i", "iu"], "K"));
+        phase("all x K class done");
         st = st.merge(api_text_side(run, &all));
+        phase("text side all done");
     } else {
         run.exhaustive = true; // the hook-level sweep is complete; the API part is over K (stated in rule)
     }
